@@ -188,7 +188,7 @@ func RandomRTCP(r *vf.Rand, ssrcs []uint32) rtcp.Packet {
 	case 2:
 		n := &rtcp.TransportLayerNack{SenderSSRC: r.U32(), MediaSSRC: pick()}
 		for i := r.Range(1, 3); i > 0; i-- {
-			n.Nacks = append(n.Nacks, rtcp.NackPair{PacketID: r.U16(), LostPackets: rtcp.PacketBitmap(r.U16())})
+			n.Nacks = append(n.Nacks, rtcp.NackPair{PacketID: r.EdgeU16(), LostPackets: rtcp.PacketBitmap(r.U16())})
 		}
 		return n
 	case 3:
